@@ -153,7 +153,7 @@ func workDir(id string) string {
 func buildOverlay(e entry, wd string) (string, string) {
 	repl := map[string]string{}
 	// explorer core as a virtual internal package
-	for _, sub := range []string{"vx", "vsched"} {
+	for _, sub := range []string{"vx", "vsched", "vsync", "vctx"} {
 		files, _ := filepath.Glob(filepath.Join(verifDir, "engine", sub, "*.go"))
 		for _, f := range files {
 			if strings.HasSuffix(f, "_test.go") {
